@@ -210,7 +210,7 @@ def process(chk, recs, stats):
             else:
                 replay["hex"] = r["hex"]
             if r.get("solve") in ("panic", "hang"):
-                if r.get("solve") == "panic" and r["mut"].startswith("string"):
+                if r.get("solve") == "panic" and (r["mut"].startswith("string") or r["base"].startswith("override:")):
                     stats["fault_panic"] += 1
                     chk.violation(dict(replay, what="a file accepted by load_from_file panics in the subsequent solve (string-valued setting near-miss)"))
                 else:
@@ -225,7 +225,13 @@ def process(chk, recs, stats):
                     chk.violation(dict(replay, what="a syntactically invalid file was loaded without error"))
                 continue
             try:
-                coq = "chk_fault %s %d%%N" % (ast_of(r["text"]), 0 if obs == "ok" else 1)
+                if "over_coq" in r:
+                    stats["override_matrix"] += 1
+                    replay["over"] = r["over"]
+                    coq = "chk_fault_over %s %s %d%%N %s" % (ast_of(r["text"]), intern_strings(r["over_coq"]), 0 if obs == "ok" else 1,
+                                                              intern_strings(r["loaded_set"]) if r.get("loaded_set") else "[]")
+                else:
+                    coq = "chk_fault %s %d%%N" % (ast_of(r["text"]), 0 if obs == "ok" else 1)
             except SkipModel:
                 stats["fault_not_predicted"] += 1
                 continue
@@ -538,6 +544,52 @@ def settings_near_miss_cases(defaults_rec):
     return cases
 
 
+def override_matrix_cases(defaults_rec):
+    """{stored settings valid / invalid} x {override None / Some(valid) / Some(invalid)}; the harness loads
+    each file with the given settings argument and solves accepted ones"""
+    import struct
+    sett = settings_object(defaults_rec)
+    sett["max_iter"] = 51
+    sett["time_limit"] = 5.0
+    base = None
+    for nm, d in model_bases(sett):
+        if nm == "model:nonneg":
+            base = dict(d)
+
+    def fbits(x):
+        return "%016x" % struct.unpack("<Q", struct.pack("<d", x))[0]
+    stored = [("valid", {})]
+    for key, bad in (("direct_solve_method", ["cholmod", "Auto", "", "mkl"]), ("chordal_decomposition_merge_method", ["foo", "Clique_graph", ""])):
+        for v in bad:
+            stored.append(("invalid %s=%r" % (key, v), {key: v}))
+    stored.append(("invalid direct_kkt_solver=false", {"direct_kkt_solver": False}))
+    stored.append(("valid alt direct_solve_method=faer", {"direct_solve_method": "faer"}))
+    stored.append(("undecodable max_iter=-1", {"max_iter": Raw("-1")}))
+    stored.append(("undecodable tol_feas=string", {"tol_feas": Raw('"1e-8"')}))
+    stored.append(("undecodable equilibrate_max_iter=2^32", {"equilibrate_max_iter": Raw("4294967296")}))
+    stored.append(("valid time_limit=MAX (infinity)", {"time_limit": 1.7976931348623157e308}))
+    overrides = [("None", None), ("Some(valid default)", []), ("Some(valid max_iter=7)", [["max_iter", {"U": 7}]]),
+                 ("Some(valid qdldl, tol_feas)", [["direct_solve_method", {"S": "qdldl"}], ["tol_feas", {"F": fbits(1e-7)}]]),
+                 ("Some(valid time_limit=MAX)", [["time_limit", {"F": fbits(1.7976931348623157e308)}]])]
+    for key, bad in (("direct_solve_method", ["cholmod", "QDLDL", "", "auto "]), ("chordal_decomposition_merge_method", ["foo", "None"])):
+        for v in bad:
+            overrides.append(("Some(invalid %s=%r)" % (key, v), [[key, {"S": v}]]))
+    overrides.append(("Some(invalid direct_kkt_solver=false)", [["direct_kkt_solver", {"B": False}]]))
+    cases = []
+    for sname, dev in stored:
+        o = dict(sett)
+        o.update(dev)
+        d = dict(base)
+        d["settings"] = o
+        text = dump(d)
+        for oname, ospec in overrides:
+            c = {"kind": "fault", "base": "override:nonneg", "mut": "stored %s x override %s" % (sname, oname), "text": text}
+            if ospec is not None:
+                c["over"] = ospec
+            cases.append(c)
+    return cases
+
+
 def model_side_cases(defaults_rec, thorough):
     cases, seen = [], set()
     for name, base in model_bases(settings_object(defaults_rec)):
@@ -576,7 +628,7 @@ def run(chk, replay=None):
     hok, hout = chk.build_harness(bin="c19")
     stats = {k: 0 for k in ("rt", "rt_skipped", "rt_reduced", "fault", "fault_panic", "fault_syntax_invalid", "fault_predicted",
                             "fault_not_predicted", "fault_ok", "fault_err", "text_layer_disagreements", "known_cones_collapsed",
-                            "known_b_capped", "known_time_limit_max", "save_bits_differ", "positional_form_disagreements", "verdict_inconclusive_flips", "sites", "solve_after_load_abnormal", "settings_near_miss")}
+                            "known_b_capped", "known_time_limit_max", "save_bits_differ", "positional_form_disagreements", "verdict_inconclusive_flips", "sites", "solve_after_load_abnormal", "settings_near_miss", "override_matrix")}
     stats["rt_by_tag"] = {}
     recs = []
     hstats = {}
@@ -615,16 +667,17 @@ def run(chk, replay=None):
             mcases = model_side_cases(drec[0], chk.tier == "thorough")
             ncases = settings_near_miss_cases(drec[0])
             stats["settings_near_miss"] = len(ncases)
-            mcases = mcases + ncases
+            ocases = override_matrix_cases(drec[0])
+            mcases = mcases + ncases + ocases
             mf = os.path.join(chk.wdir, "model_side_mutants.json")
             json.dump({"cases": mcases}, open(mf, "w"))
             rc, out2, rr = chk.run_harness(["--seed", str(chk.seed), "--tier", chk.tier, "--replay", mf], "cases_%s_modelside.jsonl" % pid, timeout=3000, bin="c19")
             if rc != 0:
                 broken.append("harness run (model-side mutants) failed rc=%d: %s" % (rc, out2[-800:]))
             rr = [r for r in rr if r.get("kind") == "fault"]
-            stats["model_side_mutants"] = len(rr) - len(ncases)
+            stats["model_side_mutants"] = len(rr) - len(ncases) - len(ocases)
             stats["model_side_ok"] = len([r for r in rr if r["observed"] == "ok"])
-            if len(rr) != len({c["text"] for c in mcases}):
+            if len(rr) != len({(c["text"], json.dumps(c.get("over"))) for c in mcases}):
                 broken.append("model-side mutants: %d generated, %d loaded" % (len(mcases), len(rr)))
             unchanged_bad = [r["base"] for r in rr if r["mut"] == "unchanged" and r["observed"] != "ok"]
             if unchanged_bad:
